@@ -98,3 +98,12 @@ Proof.
   induction l as [|x l IH]; [reflexivity|]. cbn [rev existsb].
   rewrite existsb_app. cbn [existsb]. rewrite IH, orb_false_r. apply orb_comm.
 Qed.
+
+(* byte-wise lexicographic order (String / OsStr Ord) *)
+Fixpoint bytes_ltb (a b : bytes) : bool :=
+  match a, b with
+  | [], [] => false
+  | [], _ :: _ => true
+  | _ :: _, [] => false
+  | x :: a', y :: b' => if x <? y then true else if y <? x then false else bytes_ltb a' b'
+  end.
